@@ -21,7 +21,8 @@ def _known_tags(c):
 
 
 def _run(c, name, n, seed=None, corr=("corr_enc", "corr_dec"), spec=("spec_roundtrip",)):
-    args = ["roundtrip", "-n", str(n)]
+    import os
+    args = ["roundtrip", "-n", str(n), "-corpus", os.path.join(os.path.dirname(os.path.dirname(os.path.dirname(os.path.abspath(__file__)))), "corpus", "C11")]
     kt = _known_tags(c)
     if kt:
         args += ["-known", ",".join(kt)]
@@ -37,6 +38,11 @@ def _run(c, name, n, seed=None, corr=("corr_enc", "corr_dec"), spec=("spec_round
 
 def run(c):
     c.proofs("theories/Properties/C11.v", clean=(c.tier == "thorough"))
+    # the checker definitions are not in the cone of the property file: (re)build them after the cone
+    import vlib
+    ok, log = vlib.coq_make(["theories/Edf/Cases.vo"])
+    if not ok:
+        c.broken.append({"kind": "proof", "what": "Coq build of theories/Edf/Cases.v failed", "detail": log[-2500:]})
     n = 1500 if c.tier == "quick" else 20000
     _run(c, "roundtrip", n)
     if c.broken and not c.violations and not c.replay:
